@@ -177,4 +177,170 @@ theorem readFrameWith_rest_lt {sum : Nat → Nat → Nat} {bs rest : Bytes} {f :
       · have := readDataBody_rest h; omega
       · simp at h
 
+/-! ### reading a whole stream -/
+
+theorem readFrame_encode (f : Frame) (hf : f.Valid) (rest : Bytes) : readFrame (encode f ++ rest) = .ok f rest :=
+  readFrameWith_encode sumInt (fun _ _ _ _ => rfl) f hf rest
+
+theorem encode_length_pos (f : Frame) : 0 < (encode f).length := by
+  cases f <;> simp [encode, frameHead]
+
+theorem readAllFuel_encodeAll (fs : List Frame) (hv : ∀ f ∈ fs, f.Valid) :
+    ∀ fuel, (encodeAll fs).length < fuel → readAllFuel fuel (encodeAll fs) = (fs, .err .eof) := by
+  induction fs with
+  | nil =>
+    intro fuel h
+    cases fuel with
+    | zero => simp at h
+    | succ k => simp [readAllFuel, encodeAll, readFrame, readFrameWith, readFull]
+  | cons f fs ih =>
+    intro fuel h
+    cases fuel with
+    | zero => simp at h
+    | succ k =>
+      have hcons : encodeAll (f :: fs) = encode f ++ encodeAll fs := by simp [encodeAll]
+      rw [hcons] at h ⊢
+      have hpos := encode_length_pos f
+      rw [List.length_append] at h
+      simp only [readAllFuel, readFrame_encode f (hv f (by simp))]
+      rw [ih (fun g hg => hv g (by simp [hg])) k (by omega)]
+
+theorem readAllFuel_stop : ∀ (fuel : Nat) (bs : Bytes), bs.length < fuel → ∃ e, (readAllFuel fuel bs).2 = .err e := by
+  intro fuel
+  induction fuel with
+  | zero => intro bs h; simp at h
+  | succ k ih =>
+    intro bs h
+    simp only [readAllFuel]
+    cases hr : readFrame bs with
+    | ok f rest =>
+      have := readFrameWith_rest_lt hr
+      exact ih rest (by omega)
+    | err e => exact ⟨e, rfl⟩
+    | panic => exact absurd hr (readFrameWith_sumInt_ne_panic bs)
+
+/-! ### interleavings -/
+
+theorem Shuffle.filter {α : Type} (p : α → Bool) {ms : List (List α)} {l : List α} (h : Shuffle ms l) :
+    Shuffle (ms.map (List.filter p)) (l.filter p) := by
+  induction h with
+  | nil hall =>
+    apply Shuffle.nil
+    intro m hm
+    rw [List.mem_map] at hm
+    obtain ⟨m', hm', rfl⟩ := hm
+    rw [hall m' hm']; rfl
+  | @cons ms l i x m hi _ ih =>
+    rw [List.map_set] at ih
+    have hget : (ms.map (List.filter p))[i]? = some ((x :: m).filter p) := by
+      rw [List.getElem?_map, hi]; rfl
+    by_cases hp : p x = true
+    · rw [List.filter_cons_of_pos hp] at hget ⊢
+      exact Shuffle.cons i x _ hget ih
+    · rw [List.filter_cons_of_neg hp] at hget ⊢
+      have : (ms.map (List.filter p)).set i (m.filter p) = ms.map (List.filter p) := by
+        apply List.ext_getElem?
+        intro j
+        by_cases hj : i = j
+        · subst hj
+          rw [hget]
+          have hlt : i < (ms.map (List.filter p)).length := by
+            rcases Nat.lt_or_ge i (ms.map (List.filter p)).length with h | h
+            · exact h
+            · rw [List.getElem?_eq_none h] at hget; cases hget
+          simp [List.getElem?_set_self hlt]
+        · rw [List.getElem?_set_ne hj]
+      rw [this] at ih
+      exact ih
+
+theorem Shuffle.single {α : Type} {ms : List (List α)} {l : List α} (h : Shuffle ms l) :
+    ∀ i : Nat, (∀ (j : Nat) (m : List α), j ≠ i → ms[j]? = some m → m = []) → l = (ms[i]?).getD [] := by
+  induction h with
+  | @nil ms hall =>
+    intro i _
+    cases hm : ms[i]? with
+    | none => rfl
+    | some m => simp [hall m (List.mem_of_getElem? hm)]
+  | @cons ms l k x m hk _ ih =>
+    intro i hothers
+    have hki : k = i := by
+      by_cases hki : k = i
+      · exact hki
+      · have := hothers k _ hki hk; cases this
+    subst hki
+    have hlt : k < ms.length := by
+      rcases Nat.lt_or_ge k ms.length with h | h
+      · exact h
+      · rw [List.getElem?_eq_none h] at hk; cases hk
+    have := ih k (by
+      intro j m' hj hm'
+      rw [List.getElem?_set_ne (Ne.symm hj)] at hm'
+      exact hothers j m' hj hm')
+    rw [this, hk, List.getElem?_set_self hlt]
+    rfl
+
+/-! ### body logger -/
+
+theorem bodyRun_returns (mt : UInt8) (id : Bytes) (rs : List ReadRes) : ∀ ctr, (bodyRun mt id ctr rs).1 = rs := by
+  induction rs with
+  | nil => intro ctr; rfl
+  | cons r rs ih => intro ctr; simp [bodyRun, bodyRead, ih]
+
+theorem bodyRun_length (mt : UInt8) (id : Bytes) (rs : List ReadRes) : ∀ ctr, (bodyRun mt id ctr rs).2.length = rs.length := by
+  induction rs with
+  | nil => intro ctr; rfl
+  | cons r rs ih => intro ctr; simp [bodyRun, bodyRead, ih]
+
+/-- Indices count up from the counter's start while the 32-bit counter has not wrapped. -/
+theorem bodyRun_index (mt : UInt8) (id : Bytes) (rs : List ReadRes) :
+    ∀ ctr, ctr + rs.length ≤ two32 → (bodyRun mt id ctr rs).2.map Frame.index = List.range' ctr rs.length := by
+  induction rs with
+  | nil => intro ctr _; rfl
+  | cons r rs ih =>
+    intro ctr h
+    simp only [List.length_cons] at h
+    cases rs with
+    | nil => simp [bodyRun, bodyRead, Frame.index, List.range']
+    | cons r2 rs2 =>
+      simp only [List.length_cons] at h ih
+      have hlt : ctr + 1 < two32 := by omega
+      have := ih (ctr + 1) (by omega)
+      simp only [bodyRun, bodyRead, Nat.mod_eq_of_lt hlt, List.map_cons, Frame.index, List.length_cons, List.range'_succ] at this ⊢
+      rw [this]
+
+theorem bodyRun_payload (mt : UInt8) (id : Bytes) (rs : List ReadRes) :
+    ∀ ctr, (bodyRun mt id ctr rs).2.map Frame.payload = rs.map ReadRes.data := by
+  induction rs with
+  | nil => intro ctr; rfl
+  | cons r rs ih => intro ctr; simp [bodyRun, bodyRead, Frame.payload, ih]
+
+theorem bodyRun_terminal (mt : UInt8) (id : Bytes) (rs : List ReadRes) :
+    ∀ ctr, (bodyRun mt id ctr rs).2.map Frame.terminal = rs.map (fun r => r.err == .eof) := by
+  induction rs with
+  | nil => intro ctr; rfl
+  | cons r rs ih => intro ctr; simp [bodyRun, bodyRead, Frame.terminal, ih]
+
+theorem bodyRun_key (mt : UInt8) (id : Bytes) (rs : List ReadRes) :
+    ∀ ctr, ∀ f ∈ (bodyRun mt id ctr rs).2, f.key = (id, mt) ∧ f.isData = true := by
+  induction rs with
+  | nil => intro ctr f hf; simp [bodyRun] at hf
+  | cons r rs ih =>
+    intro ctr f hf
+    simp only [bodyRun, bodyRead, List.mem_cons] at hf
+    rcases hf with rfl | hf
+    · simp [Frame.key, Frame.isData]
+    · exact ih _ f hf
+
+theorem bodyRun_valid (mt : UInt8) (id : Bytes) (hid : id.length = 8) (rs : List ReadRes)
+    (hd : ∀ r ∈ rs, r.data.length < two32) :
+    ∀ ctr, ctr < two32 → ∀ f ∈ (bodyRun mt id ctr rs).2, f.Valid := by
+  induction rs with
+  | nil => intro ctr _ f hf; simp [bodyRun] at hf
+  | cons r rs ih =>
+    intro ctr hc f hf
+    simp only [bodyRun, bodyRead, List.mem_cons] at hf
+    rcases hf with rfl | hf
+    · exact ⟨hid, hc, hd r (by simp)⟩
+    · exact ih (fun r' hr' => hd r' (by simp [hr'])) _ (Nat.mod_lt _ (by decide)) f hf
+
 end Martian.Marbl
